@@ -64,6 +64,24 @@ Lemma ce_log_call a b k n v : core_eq a b ->
   core_eq (fst (log_call a k n v)) (fst (log_call b k n v)) /\ snd (log_call a k n v) = snd (log_call b k n v).
 Proof. intros (A&B&C&D&E&F&G&H). unfold log_call. ce_split. Qed.
 
+Lemma ce_ncalls a b : core_eq a b -> ncalls a = ncalls b.
+Proof. intros (A&B&C&D&E&F&G&H). exact H. Qed.
+
+Lemma bufX_log_call c k n v : bufX (fst (log_call c k n v)) = bufX c.
+Proof. reflexivity. Qed.
+
+(* the two runs log the same entry (the kind mentions the call counter, equal on both sides) *)
+Ltac sync_log H L1 L2 a2 na b2 nb :=
+  cbv zeta;
+  match type of H with core_eq ?ca ?cb =>
+    rewrite ?(ce_ncalls ca cb H);
+    match goal with |- context [log_call cb ?k ?nm ?v] =>
+      destruct (ce_log_call ca cb k nm v H) as [L1 L2];
+      pose proof (bufX_log_call ca k nm v) as BA; pose proof (bufX_log_call cb k nm v) as BB;
+      destruct (log_call ca k nm v) as [a2 na]; destruct (log_call cb k nm v) as [b2 nb]
+    end
+  end.
+
 Lemma assign_core a b f v : core_eq a b -> assign a f v = assign b f v.
 Proof.
   intro H. unfold assign. rewrite (deref_core a b v H).
@@ -221,12 +239,9 @@ Proof.
   - apply (G (w_bufX a1 raw, None, None) (w_bufX b1 raw, None, None)); [unfold step3_eq; simpl; auto|reflexivity].
   - destruct (u_mod U (m_id m)) as [f|].
     + rewrite (deref_core _ _ raw C3).
-      destruct (ce_log_call (w_bufX a1 raw) (w_bufX b1 raw) (bs "mod") (m_id m) (deref (w_bufX b1 raw) raw :: la) C3) as [L1 L2].
-      destruct (log_call (w_bufX a1 raw) (bs "mod") (m_id m) (deref (w_bufX b1 raw) raw :: la)) as [a2 na] eqn:Ea.
-      destruct (log_call (w_bufX b1 raw) (bs "mod") (m_id m) (deref (w_bufX b1 raw) raw :: la)) as [b2 nb] eqn:Eb.
-      simpl in L1, L2. subst nb.
-      assert (BX : bufX a2 = bufX b2).
-      { unfold log_call in Ea, Eb. inversion Ea; inversion Eb; subst. reflexivity. }
+      sync_log C3 L1 L2 a2 na b2 nb.
+      cbn [fst snd] in L1, L2, BA, BB. subst nb.
+      assert (BX : bufX a2 = bufX b2) by (rewrite BA, BB; reflexivity).
       assert (D2 : deref a2 raw = deref b2 raw) by (apply deref_core; exact L1).
       rewrite D2. destruct (f na (deref b2 raw) la) as [v|x];
         [apply (G (a2, Some v, None) (b2, Some v, None))|apply (G (a2, None, Some x) (b2, None, Some x))];
@@ -256,8 +271,7 @@ Proof.
   intro H. unfold call_cond. destruct (u_cond U name); [|simpl; auto].
   destruct (collect_args_core al a b [] H) as [C1 C2].
   destruct (collect_args a al []) as [a1 la]. destruct (collect_args b al []) as [b1 lb]. cbn [fst snd] in *. subst lb.
-  destruct (ce_log_call a1 b1 (bs "cond") name la C1) as [L1 L2].
-  destruct (log_call a1 (bs "cond") name la) as [a2 na]. destruct (log_call b1 (bs "cond") name la) as [b2 nb].
+  sync_log C1 L1 L2 a2 na b2 nb.
   cbn [fst snd] in *. subst nb.
   match goal with |- context [let '(_, _) := ?X in _] => destruct X as [bb ee] end.
   cbn [fst snd]. split; [|reflexivity]. destruct ee; [apply ce_w_cerr|]; exact L1.
@@ -624,8 +638,7 @@ Proof.
     destruct (collect_args a (args r) []) as [a1 la]. destruct (collect_args b (args r) []) as [b1 lb].
     cbn [fst snd] in C1, C2. subst lb.
     destruct (u_cb U (src r)) as [fn|]; [|cbn [fst snd]; auto].
-    destruct (ce_log_call a1 b1 (bs "cb") (src r) la C1) as [L1 L2].
-    destruct (log_call a1 (bs "cb") (src r) la) as [a2 na]. destruct (log_call b1 (bs "cb") (src r) la) as [b2 nb].
+    sync_log C1 L1 L2 a2 na b2 nb.
     cbn [fst snd] in *. subst nb. auto. }
   destruct (getter r).
   { destruct (collect_args_core (args r) a b [] H) as [C1 C2].
@@ -636,7 +649,7 @@ Proof.
        (match builtin_getter (src r) with
         | Some g => run_bget (w_bufX a1 VNil) g la
         | None => match u_get U (src r) with
-                  | Some fn => let '(c, n) := log_call (w_bufX a1 VNil) (bs "get") (src r) la in
+                  | Some fn => let '(c, n) := log_call (w_bufX a1 VNil) (kind_of (bs "get") (match fn (ncalls (w_bufX a1 VNil)) la with inr _ => true | inl _ => false end)) (src r) la in
                                match fn n la with inl v => (c, Some v, None) | inr x => (c, None, Some x) end
                   | None => (w_bufX a1 VNil, None, Some EUnsupported)
                   end
@@ -644,7 +657,7 @@ Proof.
        (match builtin_getter (src r) with
         | Some g => run_bget (w_bufX b1 VNil) g la
         | None => match u_get U (src r) with
-                  | Some fn => let '(c, n) := log_call (w_bufX b1 VNil) (bs "get") (src r) la in
+                  | Some fn => let '(c, n) := log_call (w_bufX b1 VNil) (kind_of (bs "get") (match fn (ncalls (w_bufX b1 VNil)) la with inr _ => true | inl _ => false end)) (src r) la in
                                match fn n la with inl v => (c, Some v, None) | inr x => (c, None, Some x) end
                   | None => (w_bufX b1 VNil, None, Some EUnsupported)
                   end
@@ -652,7 +665,7 @@ Proof.
        bufX (fst (fst (match builtin_getter (src r) with
         | Some g => run_bget (w_bufX a1 VNil) g la
         | None => match u_get U (src r) with
-                  | Some fn => let '(c, n) := log_call (w_bufX a1 VNil) (bs "get") (src r) la in
+                  | Some fn => let '(c, n) := log_call (w_bufX a1 VNil) (kind_of (bs "get") (match fn (ncalls (w_bufX a1 VNil)) la with inr _ => true | inl _ => false end)) (src r) la in
                                match fn n la with inl v => (c, Some v, None) | inr x => (c, None, Some x) end
                   | None => (w_bufX a1 VNil, None, Some EUnsupported)
                   end
@@ -660,7 +673,7 @@ Proof.
        bufX (fst (fst (match builtin_getter (src r) with
         | Some g => run_bget (w_bufX b1 VNil) g la
         | None => match u_get U (src r) with
-                  | Some fn => let '(c, n) := log_call (w_bufX b1 VNil) (bs "get") (src r) la in
+                  | Some fn => let '(c, n) := log_call (w_bufX b1 VNil) (kind_of (bs "get") (match fn (ncalls (w_bufX b1 VNil)) la with inr _ => true | inl _ => false end)) (src r) la in
                                match fn n la with inl v => (c, Some v, None) | inr x => (c, None, Some x) end
                   | None => (w_bufX b1 VNil, None, Some EUnsupported)
                   end
@@ -677,11 +690,7 @@ Proof.
                  match goal with |- context [match ?e with _ => _ end] => destruct e end; reflexivity);
             destruct x; reflexivity.
       - destruct (u_get U (src r)) as [fn|]; [|unfold step3_eq; cbn [fst snd]; auto].
-        destruct (ce_log_call _ _ (bs "get") (src r) la C3) as [L1 L2].
-        assert (BA : bufX (fst (log_call (w_bufX a1 VNil) (bs "get") (src r) la)) = VNil) by reflexivity.
-        assert (BB : bufX (fst (log_call (w_bufX b1 VNil) (bs "get") (src r) la)) = VNil) by reflexivity.
-        destruct (log_call (w_bufX a1 VNil) (bs "get") (src r) la) as [a2 na].
-        destruct (log_call (w_bufX b1 VNil) (bs "get") (src r) la) as [b2 nb].
+        sync_log C3 L1 L2 a2 na b2 nb.
         cbn [fst snd] in L1, L2, BA, BB. subst nb.
         destruct (fn na la); unfold step3_eq; cbn [fst snd]; auto. }
     destruct V as (V & XA & XB). revert V XA XB.
